@@ -119,6 +119,15 @@ def run_property(pid, tier, seed, repo, root, t0):
         if o["status"] != "failed":
             continue
         kf = known_by_ob.get(o["name"])
+        if kf is not None and kf.get("cases") and o.get("witness"):
+            # a finding on a bounded stand-in is identified by the failing CASES it lists: any other failing
+            # case of the same stand-in is a violation
+            allf = o["witness"].get("found_all") or [o["witness"].get("detail", "")]
+            unmatched = [f for f in allf if not any(c in f for c in kf["cases"])]
+            if unmatched:
+                o["witness"] = dict(o["witness"], detail=unmatched[0])
+                o["failing"] = [{"message": "failing input found on the real code (not covered by the known finding)", "text": unmatched[0], "clause": None}]
+                kf = None
         if kf is not None:
             for rn in kf.get("residuals", []):
                 resid = by_name.get(rn)
